@@ -248,6 +248,34 @@ func (h *history) step(i int) {
 		}
 	case 2, 3: // list sharing pooled items
 		op = "factory/list"
+		if r.Chance(1, 6) {
+			// one fresh child list with 3..9 variables, then TWO parents built around it, each adding a variable of its own:
+			// the second parent leaves the first (and the child) as they were
+			k := 3 + r.Intn(7)
+			ck := map[string]ref.Kind{}
+			cargs := make([]interface{}, 0, k)
+			for j := 0; j < k; j++ {
+				nm := fmt.Sprintf("c%d_%d", i, j)
+				cargs = append(cargs, nm)
+				ck[nm] = ref.U1
+			}
+			real.Try(func() {
+				child := ast.NewListNode(ast.NewUintNode(1, cargs...))
+				if r.Bool() {
+					child = ast.NewListNode(child)
+				}
+				h.add(&pooled{kind: "item", item: child, kinds: ck}, op)
+				for _, own := range []string{fmt.Sprintf("pa%d", i), fmt.Sprintf("pb%d", i)} {
+					pk := map[string]ref.Kind{own: ref.U1}
+					for a, b := range ck {
+						pk[a] = b
+					}
+					h.add(&pooled{kind: "item", item: ast.NewListNode(child, ast.NewUintNode(1, own)), kinds: pk}, op)
+				}
+			})
+			note("two-parents-around-one-child")
+			return
+		}
 		n := r.Intn(5)
 		args := make([]interface{}, 0, n+2)
 		used := map[string]bool{}
